@@ -109,7 +109,7 @@ def classify_forward(fn, t):
 
 
 class PathSummary:
-    __slots__ = ('conds', 'fwd', 'calls', 'end', 'ret', 'path', 'throws')
+    __slots__ = ('conds', 'fwd', 'calls', 'end', 'ret', 'path', 'throws', 'throw_at_fwd', 'throw_at_call', 'unwinds', 'writes')
 
     def __init__(self):
         self.conds = []     # (canonical cond, taken)
@@ -119,6 +119,10 @@ class PathSummary:
         self.ret = None
         self.path = None
         self.throws = None
+        self.throw_at_fwd = None   # number of forwarding calls executed before the (first) throw
+        self.throw_at_call = None
+        self.unwinds = []          # ('unwind', did, name, type, dtor key) items after the throw
+        self.writes = []           # (canonical lhs, canonical rhs, event, n_fwd_before, n_calls_before)
 
     def cond_key(self):
         return tuple(sym.norm_cond(c, t) for c, t in self.conds)
@@ -158,8 +162,8 @@ def summarize(fn, exceptional=False, extra_forward=None, roles=None, inline=None
         state = (conds, fwd, calls, fwd_ids, callvals)"""
         paths = sym.enum_paths(f, limit=limit, exceptional=exceptional and depth == 0)
         for p in paths:
-            conds, fwds, calls, fwd_ids, callvals = state
-            st = (list(conds), list(fwds), list(calls), dict(fwd_ids), dict(callvals))
+            conds, fwds, calls, fwd_ids, callvals, meta = state
+            st = (list(conds), list(fwds), list(calls), dict(fwd_ids), dict(callvals), {k: (list(v) if isinstance(v, list) else v) for k, v in meta.items()})
             step_path(f, p, 0, None, init_vals, depth, st, cont)
 
     def make_env(f, init_vals, st):
@@ -179,7 +183,7 @@ def summarize(fn, exceptional=False, extra_forward=None, roles=None, inline=None
         return env
 
     def step_path(f, p, idx, env, init_vals, depth, st, cont):
-        conds, fwds, calls, fwd_ids, callvals = st
+        conds, fwds, calls, fwd_ids, callvals, meta = st
         if env is None:
             env = make_env(f, init_vals, st)
         ret_term = None
@@ -216,13 +220,16 @@ def summarize(fn, exceptional=False, extra_forward=None, roles=None, inline=None
                                 env2.vals = dict(saved_env.vals)
                                 env2.fields = dict(saved_env.fields)
                                 step_path(f, p, idx, env2, init_vals, depth, st2, cont)
-                            run_fn(callee, binds, depth + 1, (conds, fwds, calls, fwd_ids, callvals), after)
+                            run_fn(callee, binds, depth + 1, (conds, fwds, calls, fwd_ids, callvals, meta), after)
                             return
                         calls.append((env.c(t), t, e, len(fwds)))
                 elif t is not None and t.get('k') in ('construct', 'new', 'delete'):
                     calls.append((env.c(t), t, e, len(fwds)))
                 if e['ev'] == 'return' and e.get('e') is not None:
                     ret_term = env.subst(e['e'])
+                if e['ev'] in ('assign', 'incdec') and depth == 0:
+                    rhs = env.c(e['rhs']) if 'rhs' in e else e['op']
+                    meta.setdefault('writes', []).append((env.c(e['lhs']), rhs, e, len(fwds), len(calls)))
                 env.step(it)
             elif it[0] == 'br':
                 cond, taken, assume = it[1], it[2], it[3]
@@ -237,19 +244,23 @@ def summarize(fn, exceptional=False, extra_forward=None, roles=None, inline=None
                     continue    # loop trip conditions do not select the forwarding call
                 conds.append((env.c(cond), taken))
             elif it[0] == 'throw':
-                st = (conds, fwds, calls, fwd_ids, callvals)
-                if depth == 0:
-                    finish(st, None, 'propagate', p, it)
-                return
+                if depth != 0:
+                    return
+                if 'throw' not in meta:
+                    meta['throw'] = it
+                    meta['throw_at_fwd'] = len(fwds)
+                    meta['throw_at_call'] = len(calls)
+            elif it[0] == 'unwind':
+                meta.setdefault('unwinds', []).append(it)
             elif it[0] == 'end':
                 if it[1] == 'return':
-                    cont((conds, fwds, calls, fwd_ids, callvals), ret_term)
+                    cont((conds, fwds, calls, fwd_ids, callvals, meta), ret_term)
                 elif depth == 0:
-                    finish((conds, fwds, calls, fwd_ids, callvals), None, it[1], p, None)
+                    finish((conds, fwds, calls, fwd_ids, callvals, meta), None, it[1], p, meta.get('throw'))
                 return
 
     def finish(st, ret_term, end, p, throws):
-        conds, fwds, calls, fwd_ids, callvals = st
+        conds, fwds, calls, fwd_ids, callvals, meta = st
         seen = {}
         for c, tk in conds:
             if c in seen and seen[c] != tk:
@@ -279,12 +290,16 @@ def summarize(fn, exceptional=False, extra_forward=None, roles=None, inline=None
         s.ret = sym.canon(ret_term, roles) if ret_term is not None else None
         s.path = p
         s.throws = throws
+        s.throw_at_fwd = meta.get('throw_at_fwd')
+        s.throw_at_call = meta.get('throw_at_call')
+        s.unwinds = meta.get('unwinds', [])
+        s.writes = meta.get('writes', [])
         out.append(s)
 
     def top_cont(st, rterm):
-        finish(st, rterm, 'return', None, None)
+        finish(st, rterm, 'return', None, st[5].get('throw'))
 
-    run_fn(fn, {}, 0, ([], [], [], {}, {}), top_cont)
+    run_fn(fn, {}, 0, ([], [], [], {}, {}, {}), top_cont)
     return out
 
 
